@@ -137,10 +137,74 @@ func mutate(rng *rand.Rand, s string) string {
 	return string(b)
 }
 
+// arityMutate makes the member types and the member names of one struct definition disagree in number
+// (a name or a type added or dropped), or empties / duplicates the name list.
+func arityMutate(rng *rand.Rand, s string) (string, bool) {
+	var defs []int
+	for k := 0; k < len(s); k++ {
+		if s[k] == '<' {
+			defs = append(defs, k)
+		}
+	}
+	if len(defs) == 0 {
+		return s, false
+	}
+	lt := defs[rng.Intn(len(defs))]
+	switch rng.Intn(6) {
+	case 0: // one more name
+		return s[:lt+1] + s[lt+1:lt+1+strings.IndexAny(s[lt+1:], ",>")] + strings.Repeat(",x", 1+rng.Intn(3)) + s[lt+1+strings.IndexAny(s[lt+1:], ",>"):], true
+	case 1: // one name less
+		gt := lt + strings.IndexByte(s[lt:], '>')
+		if c := strings.LastIndexByte(s[lt:gt], ','); c > 0 {
+			return s[:lt+c] + s[gt:], true
+		}
+		return s, false
+	case 2: // one more member type
+		return s[:lt-1] + []string{"i", "s", "[i]", "()", "m"}[rng.Intn(5)] + s[lt-1:], true
+	case 3: // no member type at all
+		if op := matchingOpen(s, lt-1); op >= 0 {
+			return s[:op+1] + s[lt-1:], true
+		}
+		return s, false
+	case 4: // only the struct name
+		gt := lt + strings.IndexByte(s[lt:], '>')
+		if c := strings.IndexByte(s[lt:gt], ','); c > 0 {
+			return s[:lt+c] + s[gt:], true
+		}
+		return s, false
+	default: // empty definition
+		gt := lt + strings.IndexByte(s[lt:], '>')
+		return s[:lt+1] + s[gt:], true
+	}
+}
+
+// matchingOpen returns the index of the '(' matching the ')' at position cl, or -1.
+func matchingOpen(s string, cl int) int {
+	if cl < 0 || s[cl] != ')' {
+		return -1
+	}
+	d := 0
+	for k := cl; k >= 0; k-- {
+		switch s[k] {
+		case ')':
+			d++
+		case '(':
+			d--
+			if d == 0 {
+				return k
+			}
+		}
+	}
+	return -1
+}
+
+// gotypeBudget bounds the cases whose Type() is built (reflect never frees the types it creates).
+const gotypeBudget = 120000
+
 func c09(c *wk.Ctx) {
-	c.Note("rule", "streams: grammar = signatures printed by the reference generator (all scalar kinds, m o X v, lists, maps, tuples, structs incl. template-style names; depth <= 6/10, width <= 6/12): Parse must succeed, Signature() must equal the input, SignatureIDL() the reference IDL name, Type() the structure (maps with non-comparable Go keys excluded from Type() only); mutant = one or two character edits of a valid signature; random = random strings over the signature alphabet, raw bytes and deep nestings (<= 64 KiB): error, or an accepted input whose print re-parses and prints the same. Distinct non-trivial = distinct signatures (grammar) / distinct inputs that are accepted or are single-edit neighbours of a valid one.")
-	depth, width := c.Pick(6, 10), c.Pick(6, 12)
-	c.Cases("grammar", c.Pick(40000, 1000000), func(i int, rng *rand.Rand) {
+	c.Note("rule", "streams: grammar = signatures printed by the reference generator (all scalar kinds, m o X v, lists, maps, tuples, structs incl. template-style names; depth <= 6/8, width <= 6/10): Parse must succeed, Signature() must equal the input, SignatureIDL() the reference IDL name, Type() the structure (first 120k cases; maps with non-comparable Go keys excluded from Type() only); mutant = one or two character edits of a valid signature, or (a quarter) a struct definition whose member names and member types disagree in number; random = random strings over the signature alphabet, raw bytes and deep nestings (<= 64 KiB): error, or an accepted input whose print re-parses and prints the same. Distinct non-trivial = distinct signatures (grammar) / distinct inputs that are accepted or are single-edit neighbours of a valid one.")
+	depth, width := c.Pick(6, 8), c.Pick(6, 10)
+	c.Cases("grammar", c.Pick(40000, 400000), func(i int, rng *rand.Rand) {
 		t := rc.GenType(rng, rc.GenOpts{Depth: 2 + rng.Intn(depth-1), Width: 1 + rng.Intn(width), Scalars: c09Scalars, TemplateNames: true, ComparableKeys: i%2 == 0})
 		in := t.Sig()
 		var ty signature.Type
@@ -162,7 +226,8 @@ func c09(c *wk.Ctx) {
 			c.Viol("grammar", i, "grammar=idl", "IDL name inconsistent with the signature", map[string]interface{}{"input": clip(in), "idl": clip(idl), "expected": clip(t.IDL())})
 			return
 		}
-		if comparableKeys(t) {
+		// reflect keeps every type it ever built: the Go-type comparison is bounded per worker
+		if comparableKeys(t) && i < gotypeBudget {
 			var g reflect.Type
 			pv, stack := wk.Try(func() { g = ty.Type() })
 			if pv != nil {
@@ -181,9 +246,19 @@ func c09(c *wk.Ctx) {
 			c.Sample(map[string]interface{}{"stream": "grammar", "signature": in})
 		}
 	})
-	c.Cases("mutant", c.Pick(40000, 1000000), func(i int, rng *rand.Rand) {
+	c.Cases("mutant", c.Pick(40000, 600000), func(i int, rng *rand.Rand) {
 		t := rc.GenType(rng, rc.GenOpts{Depth: 2 + rng.Intn(4), Width: 1 + rng.Intn(4), Scalars: c09Scalars, TemplateNames: true})
-		in := mutate(rng, t.Sig())
+		in := t.Sig()
+		if i%4 == 3 {
+			var ok bool
+			if in, ok = arityMutate(rng, in); ok {
+				c.Count("struct_arity_mutants", 1)
+			} else {
+				in = mutate(rng, in)
+			}
+		} else {
+			in = mutate(rng, in)
+		}
 		acc := fixedPoint(c, "mutant", i, in)
 		if acc {
 			c.Count("mutants_accepted", 1)
